@@ -387,25 +387,27 @@ def main():
           okc = (w.size == 0 or (float(got_min.flatten()[0]) == float(np.min(w)) and
                                  float(got_max.flatten()[0]) == float(np.max(w))))
         else:
-          qd = None
+          # per-channel statistics: true min/max along the channel axis of a weight operator
+          # that reads the constant (readers the quantizer does not know, e.g. an RNN sharing
+          # the tensor, do not count); a constant with no weight-operator reader is per TENSOR
+          qds = set()
           for o in gsub.operators:
             if ti in [int(x) for x in o.inputs]:
               kname = tfu.TFL_OP_CODE_TO_NAME.get(m.operatorCodes[o.opcodeIndex].builtinCode)
               kname = kname.value if kname else None
               if kname == 'BATCH_MATMUL':
-                qd = w.ndim - 2 if o.builtinOptions.adjY else w.ndim - 1
+                qds.add(w.ndim - 2 if o.builtinOptions.adjY else w.ndim - 1)
               elif kname in QDIM:
-                qd = QDIM[kname]
-              break
-          if qd is None:
-            # a constant whose reader is not a weight operator (ADD / MUL / ... operand):
-            # its statistics are per TENSOR
-            okc = False
-          else:
+                qds.add(QDIM[kname])
+          okc = False
+          for qd in qds:
+            if not 0 <= qd < w.ndim:
+              continue
             axes = tuple(a for a in range(w.ndim) if a != qd)
-            okc = (got_min.size == w.shape[qd] and
-                   np.array_equal(got_min.flatten(), np.min(w, axis=axes).flatten()) and
-                   np.array_equal(got_max.flatten(), np.max(w, axis=axes).flatten()))
+            if (got_min.size == w.shape[qd] and
+                np.array_equal(got_min.flatten(), np.min(w, axis=axes).flatten()) and
+                np.array_equal(got_max.flatten(), np.max(w, axis=axes).flatten())):
+              okc = True
         if not okc:
           viol.append({'key': 'C09:constant-statistic-wrong', 'what':
                        f'{name}: recorded min/max are not the true per-tensor / per-channel min/max '
